@@ -467,6 +467,12 @@ def _random(ctx, count, big, nperbin):
         w = _as_f4(r, _weights(r, n)) if r.random() < 0.6 else None
         if y is not None and r.random() < 0.08:
             y = [r.choice([0, 1]) for _ in x]                     # a flag column (bool dtype possible)
+        alias = None
+        if r.random() < 0.05:                        # the SAME object as second variable and/or weights
+            alias = "y" if any(float(v) <= 0 for v in x) or r.random() < 0.5 else "yw"
+            y = list(x)
+            if alias == "yw":
+                w = list(x)
         which = r.choice(["none", "none", "lo", "hi", "both"])
         lo, hi = _limits(r, x, which)
         if nperbin:
@@ -475,6 +481,12 @@ def _random(ctx, count, big, nperbin):
         else:
             mode = r.choice(["nbin", "binsize"])
             c = _mk(r, "%s/%s/%s" % (kind, mode, which), x, y, w, mode, _spec(r, x, lo, hi, mode), lo, hi)
+        if alias:
+            c["alias"] = alias
+            c["api"] = "binner" if c["api"] == "histogram" else c["api"]
+            c["forms"]["y"] = c["forms"]["x"]
+            if alias == "yw":
+                c["forms"]["w"] = c["forms"]["x"]
         e = expected(c)
         if e is not None and e["nbin"] > MAXBIN:
             continue
@@ -631,6 +643,10 @@ def _drive(c):
     x = _build(c["x"], forms.get("x"), c.get("container"))
     y = _build(c["y"], forms.get("y"), c.get("container"))
     w = _build(c["w"], forms.get("w"), c.get("container"))
+    if c.get("alias"):                               # one object passed in two or three roles
+        y = x
+        if c["alias"] == "yw":
+            w = x
     kw = {}
     if c["mode"] == "combo":
         for name in ("binsize", "nbin", "nperbin"):
@@ -954,7 +970,8 @@ class Sequence(Entry):
             c = {"family": "seq:%s>%s:%s" % (a, b, mid), "api": "binner", "x": _encl(x), "y": _encl(y), "w": _encl(w),
                  "forms": {"x": _fit_form(r, x, "x"), "y": None if y is None else _fit_form(r, y, "y"),
                            "w": None if w is None else _fit_form(r, w, "w")},
-                 "steps": steps, "mutate_caller": r.random() < 0.3}
+                 "steps": steps, "mutate_caller": r.random() < 0.3,
+                 "scribble": r.choice([None, None, "zero", "reverse"])}
             if self._ok(c):
                 cs.append(c)
         # histogram(): same objects, contents changed in place between the calls / equal contents in another object
@@ -1044,7 +1061,14 @@ class Sequence(Entry):
                             if step["stats"] == "none":
                                 return None
                             b.calc_stats()
-                        return _collect(b, y is not None, w is not None)
+                        res = _collect(b, y is not None, w is not None)
+                        if c.get("scribble"):
+                            # the caller overwrites every RETURNED array (not the documented handles on the sort index,
+                            # see docs/reports/C14.md R6) before calling again: results must not live in internal buffers
+                            for key, val in list(b.items()):
+                                if isinstance(val, np.ndarray) and key not in ("sort_index", "wsort") and val.size:
+                                    val[...] = val[::-1].copy() if c["scribble"] == "reverse" else 0
+                        return res
                     outs.append(core.guarded(one))
             else:
                 x = np.array([_num(v) for v in c["x"]], dtype="f8")
@@ -1331,6 +1355,28 @@ def run(ctx, replay=None):
             ctx.violation("esutil/stat/util.py: Binner.calc_stats could not be read by the fail-closed translator: %s" % str(e)[:300],
                           {"kind": "translation", "error": str(e)[-1500:],
                            "no_longer_checks": "tie of C14.Model tables to util.py"}, found_input=False)
+    # second tie: the control skeleton (keyword order, defaults, exception classes, edge expressions, thresholds, the key
+    # tests of calc_stats, self.clear()) translated into one Gallina record and compared with Model.model_skel.
+    # Neither tie gates anything: the correspondence below always runs against the committed model.
+    if replay is None:
+        what = ("tie: control skeleton of Binner.__init__/dohist/_hist_by_binsize_or_nbin/_do_hist/_hist_by_num/_merge_last/"
+                "calc_stats and histogram() translated from esutil/stat/util.py = Model.model_skel (Proofs.skeleton_is_the_model)")
+        try:
+            sk = c14_translate.read_skel(ctx.impl)
+            vals = core.coq_eval(ctx.work + "/tie2", PRE, [c14_translate.skel_term(sk)], tag="tie2", shard=1)
+            ok = vals[0].strip("() ").replace("%Z", "") == "0"
+            ctx.obligation(what, ok, "" if ok else str(sk))
+            if not ok:
+                ctx.violation("the control skeleton read from esutil/stat/util.py differs from the model's (Model.model_skel)",
+                              {"kind": "translation", "skeleton": sk,
+                               "no_longer_checks": "tie of C14.Model.model_skel (resolve, dorev, edges, clear, thresholds, error "
+                                                   "classes) to util.py"}, found_input=False)
+        except (c14_translate.TranslateError, core.CoqEvalError) as e:
+            ctx.obligation(what, False, str(e)[-600:])
+            ctx.violation("esutil/stat/util.py: the control code of Binner/histogram could not be read by the fail-closed "
+                          "translator: %s" % str(e)[:300],
+                          {"kind": "translation", "error": str(e)[-1500:],
+                           "no_longer_checks": "tie of C14.Model.model_skel to util.py"}, found_input=False)
     differential(ctx, PRE, ENTRIES, replay)
     huge_checks(ctx, replay)
     ent = ENTRIES[1]
